@@ -21,7 +21,7 @@ echo "$rows" | while read p c; do
   fi
   tier=quick
   out=$(./check $p --tier quick 2>&1); rc=$?
-  if [ $rc -eq 0 ]; then tier=thorough; out=$(./check $p --tier thorough 2>&1); rc=$?; fi
+  if [ $rc -ne 1 ]; then q=$rc; tier=thorough; out=$(./check $p --tier thorough 2>&1); rc=$?; [ $q -eq 2 ] && tier="thorough(quick:undecided)"; fi
   v=$(echo "$out" | grep -c "^VIOLATION")
   w=$(echo "$out" | grep "^VIOLATION" | grep -vc "no-failing-input-found")
   first=$(echo "$out" | grep "failed obligation\|^VIOLATION" | tail -1 | sed 's/  failed obligation: //' | cut -c1-120)
